@@ -68,3 +68,24 @@ PROPS = {
    components=dict(real=REAL_CORE + ["real signals delivered with raise() from the single simulator thread"], simulated=SIM_COMMON, stubbed=[]), assumptions=ASSUME_R + ["raise() delivers an unblocked signal before it returns (same thread)"],
    expected_probes=["last-signal-event-deleted", "base-freed-with-signal-events-added", "signal-event-deleted-in-its-callback"]),
 }
+REAL_BEV = ["bufferevent.c", "bufferevent_sock.c", "bufferevent_pair.c", "bufferevent_filter.c", "bufferevent_ratelim.c", "listener.c", "buffer.c", "event.c", "evmap.c", "epoll.c / poll.c / select.c", "evutil.c"]
+SIM_NET = ["stream sockets, listeners, connect/accept, send-buffer back-pressure, segmentation, latency, FIN/RST (vk/ simulated kernel)", "readiness for poll/select and a simulated epoll interest table", "monotonic and wall clock (virtual)", "allocator (ledger)", "locks (simulator-owned)"]
+ASSUME_S = ["World S: the simulated socket layer in vk/vk.cpp follows Linux for the states libevent distinguishes (data/EOF => IN, room => OUT, half-close => RDHUP, reset => ERR|HUP); it is my model of the kernel, not the kernel",
+            "filter functions are harness code and honour the dst_limit they are given", "sampling of plans by seeded search, not enumeration"]
+def h4(quick, thorough):
+    return lambda tier: [dict(name="h_bev", harness="h_bev", count=quick if tier == "quick" else thorough)]
+PROPS.update({
+ "C17": dict(level="exploration", stages=h4(12000, 200000),
+   rule="1-3 connections per run over five topologies (socket<->scripted peer, socket<->socket, pair, filters over pairs incl. 1-3 stacked filters of five kinds), position-coded payloads so every received byte identifies its offset, writes of 0 B-70 KiB (thorough: 1.5 MB), enable/disable toggling, flush modes, watermarks, short/EAGAIN/EINTR I/O, tiny socket buffers, segment cutting, half-close, reset, free mid-stream; non-trivial when >= 1 KiB crossed a stream and >= 1 fault or toggle happened; distinct = distinct trace hashes among non-trivial runs",
+   components=dict(real=REAL_BEV, simulated=SIM_NET, stubbed=["TLS bufferevents (bufferevent_openssl.c, bufferevent_mbedtls.c, bufferevent_ssl.c) are not linked: their socket I/O happens inside libssl / libmbedtls where --wrap does not reach"]),
+   assumptions=ASSUME_S + ["the TLS clause of the property is not exercised (see DESIGN.md section 6)"], expected_probes=["eof", "flush-finished", "peer-half-close"]),
+ "C18": dict(level="exploration", stages=h4(12000, 200000),
+   rule="same topologies, watermark-heavy mix (zero, equal, inverted, changed while suspended) with read policies that drain all / half / one byte / nothing; invariants evaluated in every read/write callback; non-trivial when the input reached a high watermark; distinct = distinct trace hashes among non-trivial runs",
+   components=dict(real=REAL_BEV, simulated=SIM_NET, stubbed=[]), assumptions=ASSUME_S, expected_probes=[]),
+ "C19": dict(level="exploration", stages=h4(12000, 200000),
+   rule="same topologies with connect (latency 0..5 ms), half-close, reset, flush(FINISHED), setcb(NULL), free at top level and from inside read/event callbacks, deferred/unlocked/thread-safe options; lifecycle automaton per bufferevent; non-trivial when a connection reached CONNECTED or an end state (EOF/ERROR); distinct = distinct trace hashes among non-trivial runs",
+   components=dict(real=REAL_BEV, simulated=SIM_NET, stubbed=[]), assumptions=ASSUME_S, expected_probes=["connected", "eof", "free-inside-read-callback", "free-inside-event-callback", "setcb-null"]),
+ "C20": dict(level="exploration", stages=h4(12000, 200000),
+   rule="same topologies with read/write timeouts from 1 ms to 3 s, virtual-time advances at and around the timeout values, stalled peers, watermark suspension; a timeout event must come no earlier than the configured idle time after the last transfer/enable, only while enabled, and must disable the direction; non-trivial when a timeout fired; distinct = distinct trace hashes among non-trivial runs",
+   components=dict(real=REAL_BEV, simulated=SIM_NET, stubbed=[]), assumptions=ASSUME_S, expected_probes=["read-timeout", "write-timeout"]),
+})
